@@ -1208,6 +1208,18 @@ func (e *SpecEnv) evalCall(n *ast.CallExpr) *SV {
 			return nil
 		}
 		return svBool(And(Eq(a.V.Len(), b.V.Len()), Or(Eq(a.V.Len(), Int(0)), And(Eq(a.V.Arr(), b.V.Arr()), Eq(a.V.Off(), b.V.Off())))))
+	case "bytesofstr":
+		// bytesofstr(b, s): b is the whole result of the conversion []byte(s') with s' == s
+		a, b := arg(0), arg(1)
+		if a == nil || b == nil || a.V == nil || b.V == nil || !isSlice(a.V.T) || !isString(b.V.T) {
+			e.fail("bytesofstr needs a byte slice and a string")
+			return nil
+		}
+		src, ok := e.g.str2bytes[a.V.Arr().id]
+		if !ok {
+			return svBool(False)
+		}
+		return svBool(And(Eq(src, b.V.L[0]), Eq(a.V.Off(), Int(0)), Eq(a.V.Len(), StrLen(src))))
 	case "samearray":
 		a, b := arg(0), arg(1)
 		if a == nil || b == nil || a.V == nil || b.V == nil || !isSlice(a.V.T) || !isSlice(b.V.T) {
@@ -1442,6 +1454,9 @@ func (e *SpecEnv) evalCall(n *ast.CallExpr) *SV {
 			if c, ok := e.g.varAt["&"+name]; ok {
 				if ld, isLoad := av.(*ssa.UnOp); isLoad && ld.X == c {
 					return svBool(True)
+				}
+				if av == c {
+					return svBool(True) // &name itself is passed
 				}
 			}
 			switch x := av.(type) {
